@@ -377,44 +377,14 @@ func replaySchemaCase(cs *SchemaCase, eng Engine, roundTrip bool) (*run.Finding,
 	if err != nil {
 		return fail("Prototype", "prototype", "error", err.Error()), 0, nil
 	}
-	conc := model.Conc{}
-	typedOpts := model.ObsOpts{Typed: true}
-	// Observations come in two families.  PRIMARY: what the node contains (kinds, scalars, iteration,
-	// lookups of present entries).  SECONDARY: how it answers questions that do not apply (accessors of
-	// another kind, length of a scalar, lookups out of range, iterator over-read).  A secondary
-	// disagreement is reported, and the primary family is then still checked on its own, so that it
-	// cannot hide a wrong content.
 	var extra []*run.Finding
-	obs2 := func(n datamodel.Node, want model.Value, via, rule string) *run.Finding {
-		m := conc.CheckObs(n, want, typedOpts)
-		if m == nil {
-			return nil
-		}
-		prim := typedOpts
-		prim.PrimaryOnly = true
-		if pm := conc.CheckObs(n, want, prim); pm != nil {
-			return fail(via, rule+"/"+pm.Field, obsClass(pm), pm.Error())
-		}
-		extra = append(extra, fail(via, rule+"/"+m.Field, obsClass(m), m.Error()))
-		return nil
-	}
 	checkAccepted := func(n datamodel.Node, via string) *run.Finding {
-		tn, ok := n.(schema.TypedNode)
-		if !ok {
-			return fail(via, "typed-node", "not-typed", fmt.Sprintf("%T", n))
+		f, sec := typedViews(n, cs.Tv, cs.Repr, fail, via)
+		extra = append(extra, sec...)
+		if f == nil {
+			checks += 2
 		}
-		if f := obs2(tn, cs.Tv, via, "TypeView"); f != nil {
-			return f
-		}
-		var rn datamodel.Node
-		if p := model.Safe(func() { rn = tn.Representation() }); p != nil {
-			return fail(via, "ReprView", "panic", fmt.Sprint(p))
-		}
-		if f := obs2(rn, cs.Repr, via, "ReprView"); f != nil {
-			return f
-		}
-		checks += 2
-		return nil
+		return f
 	}
 	levels := []string{cs.Level}
 	if cs.Level == "both" {
